@@ -9,4 +9,10 @@ CLAIMED = {
  "C32": ("§4 C32",
   "For every sequence of <=3 (thorough 4) adds/removes on 2 keys at arbitrary non-decreasing instants, any TTL in [0,2^40) ns and an arbitrary later query instant (the exact expiry instant is just one value of it): Contains/Members/Length (set) and Get/Keys/Values/Length (map) agree and an item is present iff the instant is within TTL of its latest add, on the real SetWithTTL/MapWithTTL code with a symbolic clock.",
   "Bounds: 2 keys, 3/4 operations, instants and TTL below 2^40 ns. time.Time.Add on monotonic instants is modelled as ext+=d (no overflow inside the bounds). Outside: concurrent callers (mutexes are modelled, goroutines are not run)."),
+ "C14": ("§4 C14",
+  "IsLegacyAPIKey agrees with the documented key shapes for every string of the decisive lengths (0..8, 31..33, 63..65 bytes, all bytes symbolic); DetermineSamplerKey, GetSamplerConfigForDestName and GetSamplingKeyFieldsForDestName select the sampler the statement names (named, else __default__, else none) and the ingestion-time and decision-time selections coincide, for every environment/dataset/prefix/sampler name of <=3 symbolic bytes and each API-key class.",
+  "Bounds: names <= 3 bytes, one named sampler + optional __default__, five key classes. Outside: YAML loading of the rules file."),
+ "C25": ("§4 C25",
+  "For every configured and presented token of <= 3 symbolic bytes (and header absent): the real queryTokenChecker runs the wrapped handler iff a non-empty token is configured and presented byte-exactly; otherwise exactly one error response and none of the handler's output.",
+  "Bounds: tokens <= 3 bytes. net/http header canonicalisation executed from source. Outside: that every /query/ route is mounted behind the checker (gorilla/mux routing table is not encoded)."),
 }
